@@ -239,6 +239,55 @@ func runC01(e *core.Env) error {
 			w.close()
 		}
 	}
+	// ---- configurations with SEVERAL integrations on one source (one shared caching client): a Transfer
+	// and an Approval declaration (two events of the same transactions, the Approval log has the higher
+	// index) and a trace declaration, same ranges, every stepping order; each table is the projection
+	for rep := 0; rep < e.N(6, 18) && !e.OverBudget(); rep++ {
+		rr := r.Fork()
+		chain := transferChain(6+rr.Intn(4), uint64(1+rr.Intn(1000)))
+		w, err := newWorld(e, chain)
+		if err != nil {
+			return err
+		}
+		w.client = jrpc2.New(w.node.URL()).WithMaxReads(8).WithPollDuration(time.Hour)
+		fields := core.Pick(rr, [][]string{{"block_time"}, {"block_time", "tx_input"}})
+		root := config.Root{Integrations: []config.Integration{approvalIG("appr", "t1", fields, nil), transferIG("xfer", "t2", fields, nil), traceIG("trc", "t3")}}
+		if err := w.setupRoot(&root); err != nil {
+			w.close()
+			return err
+		}
+		batch := 1 + rr.Intn(4)
+		var ts []*wTask
+		for i, id := range []string{"appr", "xfer", "trc"} {
+			t, err := w.addTask(id, root.Integrations[i], "src1", 1, 0, batch, 1+rr.Intn(2))
+			if err != nil {
+				w.close()
+				return err
+			}
+			ts = append(ts, t)
+		}
+		perms := [][]int{{0, 1, 2}, {1, 0, 2}, {2, 1, 0}, {0, 2, 1}, {1, 2, 0}, {2, 0, 1}}
+		order := perms[rep%len(perms)]
+		okSteps := 0
+		for round := 0; round < 14 && !w.dead; round++ {
+			if round == 5 {
+				w.grow(2)
+			}
+			for _, k := range order {
+				if strings.HasPrefix(w.step(ts[k], noFault), "ok") {
+					okSteps++
+				}
+			}
+		}
+		var oracles []string
+		for _, t := range ts {
+			oracles = append(oracles, w.projOracle(t, 0))
+		}
+		op, impl := w.caseOp()
+		e.Add(core.Case{Op: op, Impl: impl, Oracles: oracles, Nontrivial: okSteps > 0, Key: fmt.Sprintf("c01-several %d %d", rep, e.Seed),
+			Tags: []string{"several-integrations-one-cache", fmt.Sprintf("order=%v", order)}, Detail: map[string]any{"batch": batch, "history": strings.Split(op, "\n")}})
+		w.close()
+	}
 	return nil
 }
 
